@@ -4,7 +4,7 @@
    input and the executable spec (Spec.spec_ok) on the implementation's observation.
    result code: 0 agree & spec holds, 1 differ & spec holds, 2 differ & spec fails,
                 3 agree & spec fails (model mirrors a defect). *)
-From Verif Require Export C05.Model C05.StreamModel C05.ShowModel.
+From Verif Require Export C05.Model C05.StreamModel C05.ShowModel C05.MergeModel.
 From Verif Require Import C05.Spec.
 Open Scope N_scope.
 
@@ -57,7 +57,22 @@ Inductive case :=
    and whether an error was returned *)
 | CShow (local : N) (nodes : list N) (shards : list (N * list N)) (data : list (N * list N))
         (down : list N) (errs : list N)
-        (ref : list N) (ores : list N) (oerr : bool).
+        (ref : list N) (ores : list N) (oerr : bool)
+(* typed merge of a fan-out: the sources in ARRIVAL order (remote?, influxql.DataType code of the
+   iterator the source's shards produce - 0 = none -, its rows), run on the real
+   Iterators.Merge over the real reader iterators / on ClusterShardMapping.CreateIterator of the
+   in-process cluster with the replies released in that order.  Observed: merged iterator nil?,
+   its type code, the rows drained (sorted), error; [ref]: rows of the single-store reference *)
+| CTMerge (arrival : list (bool * N * list N))
+          (onil : bool) (otyp : N) (orows : list N) (oerr : bool) (ref : list N)
+(* reads.NewMergedResultSet over real ResultSetStreamReaders in the given order: per input the
+   series ids it delivers and whether its stream then fails.  Observed: Err() <> nil after
+   draining, the series delivered *)
+| CRSMerge (arrival : list (list N * bool)) (oerr : bool) (oseries : list N)
+(* ClusterShardMapping.MapType of a field whose type differs between shards: the type code per
+   shard (0 = the shard does not hold the field), the answer on the cluster and on the
+   single-store reference *)
+| CMType (types : list N) (otyp ref : N).
 
 Definition mk_shards (l : list (N * list N)) : list shard := map (fun p => mkShard (fst p) (snd p)) l.
 
@@ -186,4 +201,25 @@ Definition check_case (c : case) : N :=
       let agree := show_eqb (fst r) ores && Bool.eqb (snd r) oerr
                    && show_eqb (show_reference data shards) ref in
       code agree (show_ok ref (ores, oerr))
+  | CTMerge arrival onil otyp orows oerr ref =>
+      let srcs := map (fun e => mkTS (fst (fst e)) (dtype_of_code (snd (fst e))) (snd e)) arrival in
+      let agree :=
+        negb oerr && nl_eqb ref (all_rows srcs) &&
+        match typed_merge true srcs with
+        | None => onil && nl_eqb orows []
+        | Some (t, r) => negb onil && (code_of_dtype t =? otyp) && nl_eqb r orows
+        end in
+      code agree (oerr || (tm_ok srcs orows && nl_eqb orows ref))
+  | CRSMerge arrival oerr oseries =>
+      let srcs := map (fun e => mkRS (fst e) (snd e)) arrival in
+      let o := if oerr then None else Some oseries in
+      let agree := match rs_merge true srcs, o with
+                   | None, None => true
+                   | Some a, Some b => nl_eqb a b
+                   | _, _ => false
+                   end in
+      code agree (rs_ok srcs o)
+  | CMType types otyp ref =>
+      let m := code_of_dtype (map_type (map dtype_of_code types)) in
+      code ((m =? otyp) && (m =? ref)) (otyp =? ref)
   end.
